@@ -105,6 +105,13 @@ def run_once(program):
 
 
 def main(argv):
+    import gc
+    import os
+    mode = os.environ.get('VERIF_GC', '')
+    if mode == 'off':
+        gc.disable()                # finalisation of cyclic garbage is postponed indefinitely
+    elif mode == 'aggressive':
+        gc.set_threshold(40, 2, 2) # ... or happens very often (1,1,1 crashes CPython 3.12.1)
     seed, first, last = argv[0], int(argv[1]), int(argv[2])
     full = int(argv[4]) if len(argv) > 4 and argv[3] == '--full' else None
     for index in range(first, last):
@@ -133,3 +140,8 @@ def main(argv):
 
 if __name__ == '__main__':
     main(sys.argv[1:])
+    # skip interpreter finalisation: with the collector running at every allocation
+    # CPython 3.12.1 occasionally crashes while tearing down left-over coroutines at exit
+    sys.stdout.flush()
+    import os
+    os._exit(0)
